@@ -26,7 +26,9 @@ CONSTANTS M, WRAP, P, L, MaxOps, MaxSegLen,
           Cfgs,           \* set of configurations [limit, isn]
           TotalLimit,
           SkipReset,      \* TRUE: pageCache.next clears the page's Reassembly (today); FALSE: a recycled page keeps its Skip
-          ExportMod, ExportRem
+          ExportMod, ExportRem, ExportSig
+
+ASSUME TLCSet(1, {})
 
 VARIABLES ops, conf, a, st, verdicts, pred
 ivars == <<ops, conf, a, st, verdicts, pred>>
@@ -46,10 +48,12 @@ Add(s, n) == (s + n) % M
 
 NewConnC == [pages |-> 0, first |-> 0, last |-> 0, nextSeq |-> -1, lastSeen |-> 0, closed |-> FALSE]
 NewAsm == [heap |-> <<>>, used |-> 0, exists |-> FALSE, conn |-> NewConnC, ret |-> <<>>,
-           evs |-> <<>>, panic |-> FALSE, flags |-> {}, lastSkip |-> 0]
+           evs |-> <<>>, panic |-> FALSE, flags |-> {}, lastSkip |-> 0, tags |-> {}, ltags |-> {}]
 
 Emit(x, e) == IF x.panic THEN x ELSE [x EXCEPT !.evs = Append(@, e)]
 Panic(x, why) == [x EXCEPT !.panic = TRUE, !.flags = @ \cup {why}]
+\* branch coverage of the transcription (drives the signature-directed export, see ReasmImpl.tla)
+Tag(x, t) == [x EXCEPT !.tags = @ \cup {t}]
 
 (* pageCache.next: p.prev = p.next = nil; p.Reassembly = Reassembly{Bytes: p.buf[:0], Seen: ts}.  The free list is LIFO,
    so the page object handed out is the one released last: lastSkip remembers its Skip for the SkipReset = FALSE shape *)
@@ -60,6 +64,9 @@ Alloc(x, ts) ==
 Replace(x, id) ==
   [x EXCEPT !.used = @ - 1, !.heap[id].live = FALSE, !.lastSkip = x.heap[id].skip,
             !.flags = IF x.heap[id].live THEN @ ELSE @ \cup {"page-released-twice"}]
+
+RECURSIVE ListIds(_, _, _, _)
+ListIds(x, p, acc, fuel) == IF p = 0 \/ fuel = 0 THEN acc ELSE ListIds(x, x.heap[p].next, Append(acc, p), fuel - 1)
 
 (* byteSpan: assembly.go:617-628; returns <<toSend, next>> *)
 ByteSpan(expected, received, bytes) ==
@@ -96,8 +103,9 @@ Traverse(x, prev, current, seq, fuel) ==
 PushBetween(x, prev, next, first, last) ==
   LET x1 == IF next = 0 \/ x.conn.last = 0 THEN [x EXCEPT !.conn.last = last]
             ELSE [x EXCEPT !.heap[last].next = next, !.heap[next].prev = last]
-  IN IF prev = 0 \/ x1.conn.first = 0 THEN [x1 EXCEPT !.conn.first = first]
-     ELSE [x1 EXCEPT !.heap[first].prev = prev, !.heap[prev].next = first]
+      x2 == Tag(x1, IF next = 0 \/ x.conn.last = 0 THEN "ins-as-last" ELSE IF first # last THEN "ins-multi-before-page" ELSE "ins-before-page")
+  IN IF prev = 0 \/ x2.conn.first = 0 THEN Tag([x2 EXCEPT !.conn.first = first], "ins-as-first")
+     ELSE Tag([x2 EXCEPT !.heap[first].prev = prev, !.heap[prev].next = first], "ins-after-page")
 
 (* addNextFromConn: assembly.go:768-788 *)
 AddNextFromConn(x) ==
@@ -108,7 +116,8 @@ AddNextFromConn(x) ==
       bs == ByteSpan(ns, pg.seq, pg.b)
       x1 == [x EXCEPT !.heap[f].skip = skip, !.heap[f].b = bs[1], !.conn.nextSeq = bs[2],
                       !.ret = Append(@, [b |-> bs[1], skip |-> skip, start |-> pg.start, end |-> pg.end])]
-      x2 == Replace(x1, f)
+      bt == IF Len(bs[1]) = Len(pg.b) THEN "pop-whole" ELSE IF Len(bs[1]) = 0 THEN "pop-all-duplicate" ELSE "pop-trimmed"
+      x2 == Tag(Tag(Replace(x1, f), bt), IF skip < 0 THEN "pop-skip-unknown" ELSE IF skip = 0 THEN "pop-skip0" ELSE "pop-skip+")
       x3 == IF x2.conn.first = x2.conn.last THEN [x2 EXCEPT !.conn.first = 0, !.conn.last = 0]
             ELSE LET nx == x2.heap[f].next IN
                  IF nx = 0 THEN Panic(x2, "nil-dereference-addNextFromConn")
@@ -125,7 +134,8 @@ AddContiguous(x, fuel) ==
 RECURSIVE ReleaseList(_, _, _)
 ReleaseList(x, p, fuel) == IF p = 0 \/ fuel = 0 THEN x ELSE ReleaseList(Replace(x, p), x.heap[p].next, fuel - 1)
 CloseConnection(x) ==
-  LET x1 == Emit(x, [op |-> "complete", c |-> CID, remove |-> TRUE])
+  LET nq == Len(ListIds(x, x.conn.first, <<>>, Fuel))
+      x1 == Emit(Tag(x, IF nq = 0 THEN "close-q0" ELSE IF nq = 1 THEN "close-q1" ELSE "close-q2+"), [op |-> "complete", c |-> CID, remove |-> TRUE])
       x2 == [x1 EXCEPT !.conn.closed = TRUE, !.exists = FALSE]
   IN ReleaseList(x2, x2.conn.first, Fuel)
 
@@ -146,13 +156,14 @@ EmitBatch(x, i) ==
 (* sendToConnection: assembly.go:632-641 *)
 SendToConnection(x) ==
   LET x1 == AddContiguous(x, Fuel)
-      x2 == EmitBatch(x1, 1)
+      nb == Len(x1.ret)
+      x2 == EmitBatch(Tag(x1, IF nb = 1 THEN "batch1" ELSE IF nb = 2 THEN "batch2" ELSE "batch3+"), 1)
   IN IF x2.ret[Len(x2.ret)].end THEN CloseConnection(x2) ELSE x2
 
 (* skipFlush: assembly.go:653-665 *)
 SkipFlush(x) ==
-  IF x.conn.first = 0 THEN CloseConnection(x)
-  ELSE SendToConnection(AddContiguous(AddNextFromConn([x EXCEPT !.ret = <<>>]), Fuel))
+  IF x.conn.first = 0 THEN CloseConnection(Tag(x, "skipflush-close"))
+  ELSE SendToConnection(AddContiguous(AddNextFromConn(Tag([x EXCEPT !.ret = <<>>], "skipflush-send")), Fuel))
 
 (* insertIntoConn: assembly.go:720-736 *)
 InsertIntoConn(x, seq, bytes, end, ts) ==
@@ -162,10 +173,8 @@ InsertIntoConn(x, seq, bytes, end, ts) ==
            x1 == PushBetween(pf.a, tr[1], tr[2], pf.first, pf.last)
            x2 == [x1 EXCEPT !.conn.pages = @ + pf.n]
        IN IF (conf.limit > 0 /\ x2.conn.pages >= conf.limit) \/ (TotalLimit > 0 /\ x2.used >= TotalLimit)
-          THEN AddNextFromConn(x2) ELSE x2
+          THEN Tag(AddNextFromConn(x2), "limit-hit") ELSE Tag(x2, IF pf.n > 1 THEN "queued-multi-page" ELSE IF Len(bytes) = 0 THEN "queued-empty" ELSE "queued")
 
-RECURSIVE ListIds(_, _, _, _)
-ListIds(x, p, acc, fuel) == IF p = 0 \/ fuel = 0 THEN acc ELSE ListIds(x, x.heap[p].next, Append(acc, p), fuel - 1)
 Api(x, call, t, pktpages) ==
   LET q == IF x.exists THEN ListIds(x, x.conn.first, <<>>, Fuel) ELSE <<>>
   IN Emit(x, [op |-> "api", call |-> call, t |-> t, pages |-> x.used, conns |-> (IF x.exists THEN 1 ELSE 0),
@@ -180,13 +189,17 @@ AssembleOp(x0, lo, hi, syn, fin, rst, ts) ==
       endflag == ~syn /\ Len(bytes) = 0            \* getConnection(key, !t.SYN && len(payload) == 0, ts)
       n == IF syn THEN 0 ELSE hi - lo
   IN IF ~x0.exists /\ endflag
-     THEN Api(Emit(x0, segEv), "assemble", 0, 0)                 \* empty packet on an unknown connection: ignored
+     THEN Api(Emit(Tag(x0, "ignored-empty"), segEv), "assemble", 0, 0)                 \* empty packet on an unknown connection: ignored
      ELSE
      LET x1 == IF x0.exists THEN x0
                ELSE Emit([x0 EXCEPT !.exists = TRUE, !.conn = [NewConnC EXCEPT !.lastSeen = x0.conn.lastSeen]], [op |-> "new", c |-> CID])
          x2 == Emit(x1, segEv)
-         x3 == [x2 EXCEPT !.ret = <<>>, !.conn.lastSeen = IF @ < ts THEN ts ELSE @]
-         ns == x3.conn.nextSeq
+         x3a == [x2 EXCEPT !.ret = <<>>, !.conn.lastSeen = IF @ < ts THEN ts ELSE @]
+         ns == x3a.conn.nextSeq
+         x3 == Tag(x3a, IF ns = -1 THEN (IF syn THEN "start-syn" ELSE "wait-for-start")
+                        ELSE IF Diff(ns, seq) > 0 THEN "gap-queue"
+                        ELSE IF syn THEN "syn-again"
+                        ELSE IF Diff(seq, ns) = 0 THEN "contiguous" ELSE IF Diff(seq, ns) >= Len(bytes) THEN "retransmit-old" ELSE "retransmit-overlap")
          x4 == IF ns = -1
                THEN (IF syn THEN [x3 EXCEPT !.ret = <<[b |-> bytes, skip |-> 0, start |-> TRUE, end |-> FALSE]>>,
                                             !.conn.nextSeq = Add(seq, Len(bytes) + 1)]
@@ -214,7 +227,8 @@ FlushOlderOp(x, t) ==
   LET x1 == Emit(x, [op |-> "flushb", kind |-> "older", t |-> t])
       x2 == IF x1.exists /\ ~x1.conn.closed
             THEN LET y == FOLoop(x1, t, Fuel) IN
-                 IF ~y.conn.closed /\ y.conn.first = 0 /\ y.conn.lastSeen < t THEN CloseConnection(y) ELSE y
+                 IF ~y.conn.closed /\ y.conn.first = 0 /\ y.conn.lastSeen < t THEN CloseConnection(Tag(y, "age-close"))
+                 ELSE Tag(y, IF y.conn.closed THEN "age-flush-closed" ELSE IF y.conn.first # 0 THEN "age-keeps-newer-data" ELSE "age-keeps-recent-conn")
             ELSE x1
   IN Api(Emit(x2, [op |-> "flushe", kind |-> "older", t |-> t]), "flusholder", t, 0)
 
@@ -236,7 +250,7 @@ Do(op, x) ==
   LET evs == IF x.panic THEN Append(x.evs, [op |-> "panic"]) ELSE x.evs
       f == Feed(st, evs, 1, verdicts)
   IN /\ ops' = Append(ops, op)
-     /\ a' = [x EXCEPT !.evs = <<>>, !.ret = <<>>]
+     /\ a' = [x EXCEPT !.evs = <<>>, !.ret = <<>>, !.tags = {}, !.ltags = x.tags]
      /\ st' = f[1] /\ verdicts' = f[2]
      /\ pred' = Append(pred, evs)
      /\ UNCHANGED conf
@@ -285,5 +299,10 @@ OpsHash(o, i, acc) ==
        IN OpsHash(o, i + 1, (acc * 131 + c) % 1000003)
 BehHash == (OpsHash(ops, 1, 7) + 17 * conf.isn + 5 * conf.limit) % ExportMod
 Complete == Len(ops) = MaxOps \/ a.panic
-Export == (Complete /\ BehHash = ExportRem) => PrintT("BEH " \o ToJson([cfg |-> conf, ops |-> ops, pred |-> pred, flags |-> a.flags, verdicts |-> verdicts]))
+Sig == <<a.ltags, conf.limit>>
+ExportLine(kind) == PrintT(kind \o ToJson([cfg |-> conf, ops |-> ops, pred |-> pred, flags |-> a.flags, verdicts |-> verdicts, sig |-> Sig]))
+Export ==
+  Complete => IF BehHash = ExportRem THEN ExportLine("BEH ")
+              ELSE IF ExportSig /\ Sig \notin TLCGet(1) THEN TLCSet(1, TLCGet(1) \cup {Sig}) /\ ExportLine("SIG ")
+              ELSE TRUE
 =============================================================================
